@@ -54,6 +54,10 @@ WellFormed(t) ==
 
 RealLinearDiagonal(t) == t.real /\ t.spread <= TolG /\ t.pw <= TolG /\ t.leak <= TolG /\ t.lin <= TolG
 
+\* the filter is a function of its arguments: repeating a call after the caller overwrote the returned stack gives the
+\* same stack (rep), stacks handed out earlier are not changed by later calls (keep), arguments are left untouched
+CallsAreIndependent(t) == t.rep <= TolG /\ t.keep <= TolG /\ ~t.argmut
+
 \* the zero-frequency component, hence the image mean, is unchanged
 MeanUnchanged(t) ==
     /\ t.mean <= TolG
@@ -110,6 +114,7 @@ CompositionAdds(t) ==
 Failing(t) ==
     IF ~WellFormed(t) THEN "malformed_trace"
     ELSE IF ~RealLinearDiagonal(t) THEN "C16_RealLinearDiagonal"
+    ELSE IF ~CallsAreIndependent(t) THEN "C16_CallsAreIndependent"
     ELSE IF ~MeanUnchanged(t) THEN "C16_MeanUnchanged"
     ELSE IF ~PowerNeverIncreases(t) THEN "C16_PowerNeverIncreases"
     ELSE IF ~ZeroDoseIsIdentity(t) THEN "C16_ZeroDoseIsIdentity"
